@@ -796,6 +796,7 @@ func (w *walker) stmt(s ast.Stmt) bool {
 	case *ast.SendStmt:
 		w.expr(s.Chan)
 		w.expr(s.Value)
+		w.sendRules(s)
 	case *ast.LabeledStmt:
 		return w.stmt(s.Stmt)
 	case *ast.DeclStmt:
@@ -1167,6 +1168,7 @@ func (w *walker) deferStmt(s *ast.DeferStmt) {
 }
 
 func (w *walker) goStmt(s *ast.GoStmt) {
+	w.goRules(s)
 	id := w.sc.goIDs[s]
 	sp := w.sc.spawns[id]
 	single := w.c.class != classAny && !w.loopGo[s] && w.inLoop == 0
